@@ -244,9 +244,27 @@ pub fn execute_mock(cfg: &ParCfg, obs: &SharedObs) {
     o.returned = true;
 }
 
-/// Runs `body` once under the given scheduler/seed. Returns Err(message) if shuttle panicked
-/// (deadlock, step bound, panic inside a task).
-pub fn run_under<F>(sched: Sched, seed: u64, body: F) -> Result<usize, crate::engine::Failure>
+/// Runs `body` `iterations` times under the given seeded scheduler. Returns the number of executions, or
+/// Err if shuttle panicked (deadlock, step bound, panic inside a task - including the oracle panics raised
+/// by the callers).
+pub fn run_under<F>(sched: Sched, seed: u64, iterations: usize, body: F) -> Result<usize, crate::engine::Failure>
+where
+    F: Fn() + Send + Sync + Clone + 'static,
+{
+    let r = run_inner(sched, seed, iterations, body.clone());
+    if let Err(f) = &r {
+        if f.msg.contains("did not exercise any concurrency") {
+            // PCT refuses executions with (almost) no scheduling points (e.g. an init closure failing at once):
+            // sample those with the random scheduler instead
+            if let Sched::Pct(_) = sched {
+                return run_inner(Sched::Random, seed, iterations, body);
+            }
+        }
+    }
+    r
+}
+
+fn run_inner<F>(sched: Sched, seed: u64, iterations: usize, body: F) -> Result<usize, crate::engine::Failure>
 where
     F: Fn() + Send + Sync + 'static,
 {
@@ -257,8 +275,8 @@ where
     let iters = std::cell::Cell::new(0usize);
     let r = crate::engine::guarded(|| {
         let n = match sched {
-            Sched::Random => shuttle::Runner::new(shuttle::scheduler::RandomScheduler::new_from_seed(seed, 1), config).run(body),
-            Sched::Pct(d) => shuttle::Runner::new(shuttle::scheduler::PctScheduler::new_from_seed(seed, d.max(1) as usize, 1), config).run(body),
+            Sched::Random => shuttle::Runner::new(shuttle::scheduler::RandomScheduler::new_from_seed(seed, iterations), config).run(body),
+            Sched::Pct(d) => shuttle::Runner::new(shuttle::scheduler::PctScheduler::new_from_seed(seed, d.max(1) as usize, iterations), config).run(body),
             Sched::RoundRobin => shuttle::Runner::new(shuttle::scheduler::RoundRobinScheduler::new(1), config).run(body),
             Sched::Dfs(max) => shuttle::Runner::new(shuttle::scheduler::DfsScheduler::new(Some(max as usize), false), config).run(body),
         };
